@@ -207,6 +207,25 @@ def tlc_trace(name, module, cfg, trace, timeout=1800, xmx="3g", env=None):
     return res
 
 
+def apalache_check(name, module, init, inv, length, timeout=900):
+    """One Apalache run (symbolic, unbounded data) on spec/apalache/<module>: dict(ok, outcome, wall_s, log).  ok = the
+    checker reported NoError; a violated invariant gives outcome 'Error'; anything else is a tool problem."""
+    ensure_dirs()
+    logp = os.path.join(WORK, "logs", name + ".log")
+    outdir = os.path.join(WORK, "apalache", name)
+    shutil.rmtree(outdir, ignore_errors=True)
+    t0 = time.time()
+    p = subprocess.run(["timeout", str(timeout), "apalache-mc", "check", "--init=" + init, "--inv=" + inv, "--length=%d" % length,
+                        "--out-dir=" + outdir, module], cwd=os.path.join(SPEC, "apalache"), stdout=subprocess.PIPE, stderr=subprocess.STDOUT,
+                       text=True, errors="replace")
+    with open(logp, "w") as f:
+        f.write(p.stdout)
+    shutil.rmtree(outdir, ignore_errors=True)
+    m = re.search(r"The outcome is: (\w+)", p.stdout)
+    outcome = m.group(1) if m else ("timeout" if p.returncode == 124 else "unknown")
+    return dict(ok=(outcome == "NoError"), outcome=outcome, wall_s=round(time.time() - t0, 1), log=logp)
+
+
 def parallel(jobs, max_workers=None):
     """jobs: list of (callable, args, kwargs).  Returns results in order."""
     with cf.ThreadPoolExecutor(max_workers=max_workers or NCPU) as ex:
